@@ -742,6 +742,8 @@ func c09Veneers(d *Defs, r *rng, pct int) (string, []string) {
 	}
 	var opts, blds, tags []string
 	promoted := map[string]bool{}
+	scalarUnionFlattened := map[string]bool{} // one flattened scalar union per builder: the new options are named after the branch types
+	branchOptions := map[string]bool{}
 	for _, def := range d.Items {
 		if def.Ty == nil || def.Ty.Kind != SStruct {
 			continue
@@ -813,7 +815,12 @@ func c09Veneers(d *Defs, r *rng, pct int) (string, []string) {
 				// the new options are named after the branches: skip when one of them would
 				// collide with an option the builder already has (redeclared method in Go, silently
 				// shadowed method in Python)
-				clash := false
+				clash := scalarUnionFlattened[def.Name] && f.Ty.Kind == SOneOfScalars
+				for _, br := range f.Ty.Branches {
+					if branchOptions[def.Name+"."+strings.ToLower(br.Name)] {
+						clash = true
+					}
+				}
 				for _, g := range def.Ty.Fields {
 					for _, br := range f.Ty.Branches {
 						if strings.EqualFold(g.Name, br.Name) {
@@ -828,6 +835,12 @@ func c09Veneers(d *Defs, r *rng, pct int) (string, []string) {
 				}
 				if clash {
 					continue
+				}
+				if f.Ty.Kind == SOneOfScalars {
+					scalarUnionFlattened[def.Name] = true
+				}
+				for _, br := range f.Ty.Branches {
+					branchOptions[def.Name+"."+strings.ToLower(br.Name)] = true
 				}
 				opts = append(opts, fmt.Sprintf("  - disjunction_as_options: { by_name: %s }", sel))
 				tags = append(tags, "disjunction_as_options")
